@@ -186,6 +186,10 @@ func (g *SessionManager) selectSession(msg interface{}) getty.Session {
 
 func (g *SessionManager) getXid(msg interface{}) string {
 	var xid string
+	// the senders pass the whole rpc message: the xid lives in its body
+	if rpcMsg, ok := msg.(message.RpcMessage); ok {
+		msg = rpcMsg.Body
+	}
 	if tmpMsg, ok := msg.(message.AbstractGlobalEndRequest); ok {
 		xid = tmpMsg.Xid
 	} else if tmpMsg, ok := msg.(message.GlobalBeginRequest); ok {
@@ -200,7 +204,9 @@ func (g *SessionManager) getXid(msg interface{}) string {
 		if msgType.Kind() == reflect.Ptr {
 			msgValue = msgValue.Elem()
 		}
-		xid = msgValue.FieldByName("Xid").String()
+		if msgValue.Kind() == reflect.Struct {
+			xid = msgValue.FieldByName("Xid").String()
+		}
 	}
 	return xid
 }
